@@ -333,6 +333,8 @@ def rule_moveonce(ctx, rep):
                 else:
                     # the Vec itself is still dropped afterwards (its storage is released)
                     drops = [i for i, bl in enumerate(b["blocks"]) if bl["term"]["k"] == "drop" and bl["term"]["place"]["l"] == 2 and not b["blocks"][i]["cleanup"]]
+                    # or handed to `drop(v)` explicitly
+                    drops += [i for i, t3 in B.calls() if atomics.callee_of(t3) == "core::mem::drop" and t3["args"] and _rooted_at_arg(symx.expr(F, B, t3["args"][0]), 2) and not b["blocks"][i].get("cleanup")]
                     if not drops or not any(sbi in dom.get(d, set()) for d in drops):
                         ok, why = False, "the source Vec is not dropped after `set_len(0)`: its storage would leak"
             if ok:
@@ -433,48 +435,83 @@ def rule_iterloop(ctx, rep):
     rep.floor("R-ITERLOOP", 1, "the iterator constructor's loop")
 
 
+def _strip_reborrow(e):
+    """`*(&x)` is x."""
+    while e[0] == "proj" and e[2] == ("*",) and e[1][0] == "addr":
+        e = e[1][1]
+    return e
+
+
+def _exact_wrapper_types(F):
+    """Local types that implement ExactSizeIterator (the adapter that turns a size hint into a promise)."""
+    out = set()
+    for im in F.impls:
+        if (im.get("trait") or "").endswith("exact_size::ExactSizeIterator"):
+            t = F.ty(im["self_ty"])
+            if t["k"] == "adt" and t.get("local"):
+                out.add(t["path"])
+    return out
+
+
 def rule_exact(ctx, rep):
-    """FromIterator: the exact-size fast path is taken only when Some(lower) == upper of one size_hint call; the wrapper's len() is that lower bound."""
+    """FromIterator: the exact-size fast path is taken only when the size hint's upper bound is `Some` and equals the lower bound of
+    one and the same size_hint() call (`Some(lower) == upper`, or `(lower, Some(upper)) if lower == upper`); the wrapper's len() is
+    that lower bound."""
     for tag, F, E in ctx.each():
+        wrappers = _exact_wrapper_types(F)
+        g = cfg.call_graph(F)
+        makes_wrapper = set(k for k, bb in F.bodies.items() if "output" in bb and F.ty(bb["output"])["k"] == "adt" and F.ty(bb["output"])["path"] in wrappers)
         for b in F.method("UniqueArc", "from_iter", "FromIterator"):
             B = cfg.Body(b)
-            sw = None
+            cut = set()
+            seen_cmp = False
+            why = None
             for bi, bl in enumerate(b["blocks"]):
                 tt = bl["term"]
                 if tt["k"] != "switch":
                     continue
                 c = B.condition(tt["discr"])
-                if c and "call" in c and c["call"].get("callee_trait") == "core::cmp::PartialEq":
+                if not c:
+                    continue
+                if "call" in c and c["call"].get("callee_trait") == "core::cmp::PartialEq":
                     a0 = nobb(symx.expr(F, B, c["call"]["args"][0]))
                     a1 = nobb(symx.expr(F, B, c["call"]["args"][1]))
-                    sw = (bi, tt, c, a0, a1)
+                    if a1[0] == "agg" and a0[0] == "tfield":
+                        a0, a1 = a1, a0  # `upper == Some(lower)`
+                    neg = c["neg"] != (c["call"].get("callee_name") == "ne")
+                    seen_cmp = True
+                    some_lower = a0[0] == "agg" and a0[3] == "Some" and a0[4] and a0[4][0][0] == "tfield" and a0[4][0][2] == 0
+                    upper = a1[0] == "tfield" and a1[2] == 1
+                    if some_lower and upper and nobb(a0[4][0][1]) == nobb(a1[1]) and a1[1][0] == "call" and a1[1][2] == "size_hint":
+                        cut |= set((bi, tgt) for tgt, tv in B.switch_truth(tt).items() if tv != neg)
+                    else:
+                        why = "the fast path is not guarded by `Some(lower) == upper` of one and the same size_hint() result (%s vs %s)" % (symx.show(a0), symx.show(a1))
+                elif c.get("op") in ("Eq", "Ne"):
+                    x = _strip_reborrow(nobb(symx.expr(F, B, c["a"])))
+                    y = _strip_reborrow(nobb(symx.expr(F, B, c["b"])))
+                    if y[0] == "tfield":
+                        x, y = y, x
+                    # lower = hint.0 ; upper = (hint.1 as Some).0
+                    if x[0] == "tfield" and x[2] == 0 and y[0] == "proj" and tuple(y[2]) == ("1", "?", "0") and nobb(x[1]) == nobb(y[1]) and x[1][0] == "call" and x[1][2] == "size_hint":
+                        seen_cmp = True
+                        neg = c["neg"] != (c["op"] == "Ne")
+                        cut |= set((bi, tgt) for tgt, tv in B.switch_truth(tt).items() if tv != neg)
+            exact_bbs = []
+            for x, t in B.calls():
+                k = atomics.callee_of(t)
+                if k in F.bodies and (k in makes_wrapper or cfg.reachable_from(g, [k]) & makes_wrapper):
+                    exact_bbs.append(x)
             ok = True
-            why = None
-            if sw is None:
+            if not seen_cmp and why is None:
                 ok, why = False, "no comparison of the size-hint bounds found"
+            elif why is not None and not cut:
+                ok = False
+            elif not exact_bbs:
+                ok, why = False, "no exact-size constructor call found"
             else:
-                bi, tt, c, a0, a1 = sw
-                if a1[0] == "agg" and a0[0] == "tfield":
-                    a0, a1 = a1, a0  # `upper == Some(lower)`
-                if c["call"].get("callee_name") == "ne":
-                    c = dict(c)
-                    c["neg"] = not c["neg"]  # `Some(lower) != upper` with the arms swapped
-                hints = []
-                find_calls(a0, "size_hint", hints)
-                find_calls(a1, "size_hint", hints)
-                sites = set(id(h) for h in hints)
-                some_lower = a0[0] == "agg" and a0[3] == "Some" and a0[4] and a0[4][0][0] == "tfield" and a0[4][0][2] == 0
-                upper = a1[0] == "tfield" and a1[2] == 1
-                if not (some_lower and upper) or nobb(a0[4][0][1]) != nobb(a1[1]):
-                    ok, why = False, "the fast path is not guarded by `Some(lower) == upper` of one and the same size_hint() result (%s vs %s)" % (symx.show(a0), symx.show(a1))
-                else:
-                    exact_bbs = [x for x, t in B.calls() if (F.body(atomics.callee_of(t)) or {}).get("name") == "from_header_and_iter"]
-                    cut = set((bi, tgt) for tgt, tv in B.switch_truth(tt).items() if tv != c["neg"])
-                    if not exact_bbs:
-                        ok, why = False, "no exact-size constructor call found"
-                    for x in exact_bbs:
-                        if c03.reachable_without(B, cut, set(), x):
-                            ok, why = False, "the exact-size constructor is reachable without the bounds having been found equal: an iterator with lower < upper would be trusted to yield exactly `lower` items"
+                for x in exact_bbs:
+                    if c03.reachable_without(B, cut, set(), x):
+                        ok, why = False, "the exact-size constructor is reachable without the bounds having been found equal: an iterator with lower < upper (or no upper bound) would be trusted to yield exactly `lower` items"
             if ok:
                 rep.ok("R-EXACT", b["key"], cfg=tag)
             else:
